@@ -44,6 +44,8 @@ class HarnessReport:
 
 
 def _explore_harness(h: Harness):
+  import logging
+  logging.disable(logging.CRITICAL)      # the repository's log records are not part of any proof obligation
   t0 = time.time()
 
   def run(ctx):
